@@ -133,6 +133,7 @@ func driveE2EVal(c *ctx) error {
 		"another recursion and interpret-as, plus random ASTs; a paused response is resumed as soon as it is parked; observed = a RequestRejected status reached the requestor, " +
 		"blocks received; expected = rejected iff some limit is none or above the (regenerated) default depth, no block when rejected; non-trivial = the hook pauses or the recursion is nested; distinct = distinct terms"
 	run := func(vc e2eValCase, tag string) error {
+		c.inflight(vc)
 		obs, err := runE2EVal(vc)
 		if err != nil {
 			obs, err = runE2EVal(vc)
